@@ -214,7 +214,7 @@ impl TryFrom<NaiveDateTime> for IntervalYM {
     #[inline]
     fn try_from(dt: NaiveDateTime) -> Result<Self> {
         if dt.negative {
-            Ok(-IntervalYM::try_from_ym(-dt.year as u32, dt.month)?)
+            Ok(-IntervalYM::try_from_ym(dt.year.unsigned_abs(), dt.month)?)
         } else {
             IntervalYM::try_from_ym(dt.year as u32, dt.month)
         }
